@@ -64,7 +64,8 @@ def run_task(prog, tid, params, tier):
                 fref = new_formatter(I)
                 trait_fmt(I, 'Debug', I.new_ref(pr.f[0], 'pkt'), fref)
                 return True
-            rr, expected, rust, g = build_record(prog, I, tname, shape)
+            # the first shape of every type is parsed with the ROOT owner name (zero labels), the others with a 2-label owner
+            rr, expected, rust, g = build_record(prog, I, tname, shape, owner_shape=() if shape is shapes[0] else (2, 1))
             holder['bytes'] = expected
             pos = Cell(mk('usize', 0), 'pos')
             pr = I.call_function(f_parse, [X.byte_buffer(I, expected, 'wire'), Ref(pos)], {})
@@ -82,6 +83,12 @@ def run_task(prog, tid, params, tier):
             I.call_function(f_mq, [ref, En('QTYPE', 'MAILB')], {})
             I.call_function(f_mq, [ref, En('QTYPE', 'TYPE', (En('TYPE', 'TXT'),))], {})
             I.call_function(f_mc, [ref, En('QCLASS', 'CLASS', (En('CLASS', 'CH'),))], {})
+            # observers of the owner name: link-local test, suffix relations with itself, label count, encoded length
+            nref = Ref(ref.cell, ref.path + (0,))
+            for meth, extra in (('is_link_local', []), ('is_subdomain_of', [nref]), ('without', [nref]), ('get_labels', []), ('len', [])):
+                cands = [f for t, f in prog.methods.get(('Name', meth), []) if t is None or (meth == 'len' and (t or '').startswith('WireFormat'))]
+                if len(cands) == 1:
+                    I.call_function(cands[0], [nref] + extra, {})
             if tname == 'TXT' and not shape.get('light'):
                 txt = v.f[3].f[0]
                 tref = I.new_ref(txt, 'txt')
